@@ -63,7 +63,26 @@ impl InputEvent {
 fn unescape_text(t: &BytesText) -> String {
     match t.unescape() {
         Ok(text) => text.into_owned(),
-        Err(_) => String::from_utf8_lossy(t).into_owned(),
+        Err(_) => {
+            // Something in here can't be resolved (typically a reference to an entity
+            // svgdx doesn't know). That is no reason to leave the rest escaped: resolve
+            // what can be, piece by piece, and keep the other references as written.
+            let raw = String::from_utf8_lossy(t).into_owned();
+            let mut text = String::with_capacity(raw.len());
+            let mut rest = raw.as_str();
+            while let Some(amp) = rest.find('&') {
+                text.push_str(&rest[..amp]);
+                rest = &rest[amp..];
+                let end = rest.find(';').map(|i| i + 1).unwrap_or(rest.len());
+                match quick_xml::escape::unescape(&rest[..end]) {
+                    Ok(resolved) => text.push_str(&resolved),
+                    Err(_) => text.push_str(&rest[..end]),
+                }
+                rest = &rest[end..];
+            }
+            text.push_str(rest);
+            text
+        }
     }
 }
 
